@@ -944,6 +944,7 @@ func main() {
 	c.Rule += " sig: a third of the signature reconciles run with one failing API call (conflict, 500, timeout, applied-but-504, kind not served, 503, 404)."
 	c.Rule += " " + "Sources without a registry host: the image reference handed to the signature validator must be the one the revision controller installs."
 	c.Rule += " " + "A quarter of the package cases meet a pre-release build of Crossplane (own constraint truth table)."
+	c.Rule += " " + "Images whose annotated base layer blob is served with bytes that do not hash to the digest the manifest names (nothing may be established)."
 	c.Assumptions = []string{
 		"sim implements the apiserver rules of DESIGN.md 2.2",
 		"the running Crossplane version is " + runningVersion + ", injected into the production Versioner (normally set with -ldflags); constraint truth table written by hand for plain comparison, ~, ^ and x-range forms",
